@@ -4,6 +4,14 @@ import "github.com/circlefin/noble-cctp/x/cctp/verifrt"
 
 func init() {
 	verifrt.Register("Harness_C03_Receive", Harness_C03_Receive)
+	verifrt.Register("Harness_C03_VerdictFollowsTheCurrentAttesterSet", Harness_C03_VerdictFollowsTheCurrentAttesterSet)
+}
+
+// "the attestation is valid" means valid under the attesters enabled now: a signature by an attester
+// that is not in the set is refused even after the same signature was accepted against a set that
+// contained it (replayable special case of the interference lemma, see c18.go)
+func Harness_C03_VerdictFollowsTheCurrentAttesterSet() {
+	verdictNotRetained("C03/verifier/verdict-follows-the-current-attester-set")
 }
 
 // one symbolic ReceiveMessage from an arbitrary invariant-satisfying state (see receive.go)
